@@ -5,6 +5,7 @@ the ten face sums are formed from the per-face polynomials *traced from the sour
 follows lines 287-327 of triangles.py.
 -/
 import TrimeshVerif.Generated.C03TraceRat
+import TrimeshVerif.Generated.C03FrameRat
 namespace TV.MassRat
 open TV.Generated
 
@@ -62,5 +63,19 @@ def post (S : List Rat) (rho : Rat) (cm : Option (List Rat)) : Props :=
   let i02 := -(s 9 - v * k1 * k3)
   { volume := v, mass := rho * v, centerMass := k,
     inertia := [[rho * i00, rho * i01, rho * i02], [rho * i01, rho * i11, rho * i12], [rho * i02, rho * i12, rho * i22]] }
+
+/-- `moment_inertia_frame` (traced: Generated/C03FrameRat.lean) for the frame with axes `R` (row major) and
+    origin `p`, from the post-processed properties (centre of mass, mass, tensor at the centre of mass) -/
+def frameTensor (R p : List Rat) (pr : Props) : List (List Rat) :=
+  let r (i : Nat) : Rat := R.getD i 0
+  let c (i : Nat) : Rat := pr.centerMass.getD i 0
+  let e (i j : Nat) : Rat := (pr.inertia.getD i []).getD j 0
+  let f (g : Rat → Rat → Rat → Rat → Rat → Rat → Rat → Rat → Rat → Rat → Rat → Rat → Rat → Rat → Rat → Rat → Rat →
+      Rat → Rat → Rat → Rat → Rat → Rat) : Rat :=
+    g (r 0) (r 1) (r 2) (r 3) (r 4) (r 5) (r 6) (r 7) (r 8) (p.getD 0 0) (p.getD 1 0) (p.getD 2 0) (c 0) (c 1) (c 2)
+      pr.mass (e 0 0) (e 0 1) (e 0 2) (e 1 1) (e 1 2) (e 2 2)
+  [[f C03FrameRat.frame00, f C03FrameRat.frame01, f C03FrameRat.frame02],
+   [f C03FrameRat.frame10, f C03FrameRat.frame11, f C03FrameRat.frame12],
+   [f C03FrameRat.frame20, f C03FrameRat.frame21, f C03FrameRat.frame22]]
 
 end TV.MassRat
